@@ -1,8 +1,62 @@
-(* C05 -- placeholder until Proofs/WriterProofs.v is in place. *)
-From Coq Require Import ZArith List.
-From DRF Require Import Model.WriterCore.
+(* C05 -- Write-once, forward-only recording with atomic rejection.
+   Models: Model/WriterCore.v (C writer), Model/IndexCalc.v (index helpers), Model/PyWriter.v (Python
+   front end), tied to /repo by correspondence (harness/props/c05.py: Python API, C API, and the C
+   index helpers called directly). *)
+From Coq Require Import ZArith List Bool.
+From DRF Require Import Model.IndexCalc Model.WriterCore Model.PyWriter Proofs.WriterBasics Proofs.WriterInv.
+Import ListNotations.
 Local Open Scope Z_scope.
 
-Theorem C05_failed_writer_refuses_partial : forall c st bl vec, w_failed st = true -> write_blocks c st bl vec = (-1, st).
-Proof. intros c st bl vec H. unfold write_blocks. rewrite H. reflexivity. Qed.
-Print Assumptions C05_failed_writer_refuses_partial.
+(* every call the C library rejects up front (failed writer, start before the cursor, gapped data in
+   continuous mode) leaves the whole state -- files, cursor, open file -- exactly as it was *)
+Theorem C05_c_reject_changes_nothing : forall c st bl vec rc st',
+  write_blocks c st bl vec = (rc, st') -> rc = -1 \/ rc = -3 \/ rc = -4 -> st' = st.
+Proof. exact write_blocks_reject_noop. Qed.
+Print Assumptions C05_c_reject_changes_nothing.
+
+(* malformed block arrays (first offset not 0, start before the cursor, offsets/indices not
+   increasing, overlapping blocks, offsets past the data): whatever the state and mode, the call
+   ends with the state unchanged; it returns non-zero unless there was no data at all *)
+Theorem C05_c_malformed_changes_nothing : forall c st bl vec,
+  valid_arrays (w_gi st) (Z.of_nat (length vec)) bl = false ->
+  exists rc, rc <> 0 /\ write_blocks c st bl vec = (rc, st) \/ (vec = [] /\ write_blocks c st bl vec = (rc, st)).
+Proof. exact c_malformed_call_changes_nothing. Qed.
+Print Assumptions C05_c_malformed_changes_nothing.
+
+(* the array checks do not depend on the per-file iteration, so a call cannot pass them for its
+   first file and fail them for a later one (no half-written rejected call) *)
+Theorem C05_validation_independent_of_iteration : forall start gi chunk cont sw left cap bl vlen next fe,
+  create_rf_data_index start gi chunk cont sw left cap bl vlen next fe = None <->
+  match bl with
+  | [] => True
+  | (g0, _) :: _ => ((sw =? 0) && (g0 <? gi)) || bad_blocks true vlen 0 0 bl = true
+  end.
+Proof. exact crdi_none_iff. Qed.
+Print Assumptions C05_validation_independent_of_iteration.
+
+(* Python front end: a call answered with ValueError / IOError changes nothing at all *)
+Theorem C05_py_rf_write_reject_changes_nothing : forall gr c ps ns vec cls ret ps',
+  py_rf_write gr c ps ns vec = ((cls, ret), ps') -> cls = ValueError \/ cls = IOError -> ps' = ps.
+Proof. exact py_rf_write_reject_noop. Qed.
+Print Assumptions C05_py_rf_write_reject_changes_nothing.
+
+Theorem C05_py_rf_write_blocks_reject_changes_nothing : forall c ps G D vec cls ret ps',
+  py_rf_write_blocks c ps G D vec = ((cls, ret), ps') -> cls = ValueError \/ cls = IOError -> ps' = ps.
+Proof. exact py_rf_write_blocks_reject_noop. Qed.
+Print Assumptions C05_py_rf_write_blocks_reject_changes_nothing.
+
+(* nothing the Python validation lets through is rejected by the C validation half-way *)
+Theorem C05_py_valid_implies_c_valid : forall next vlen G D,
+  py_arrays_ok next vlen G D = true -> valid_arrays next vlen (combine G D) = true.
+Proof. exact py_valid_implies_c_valid. Qed.
+Print Assumptions C05_py_valid_implies_c_valid.
+
+(* a sample, once written, never changes value; a rejected call (start before the cursor) is a no-op
+   on the Spec; proved for histories of single-block calls in chunked mode (gapped, or continuous with
+   compression/checksum): the stored map equals the Spec map, in which new writes lie strictly above
+   every stored index.  (The multi-block and un-chunked cases are covered by correspondence only.) *)
+Theorem C05_never_rewritten_single_chunked_partial : forall c ops, vcfg c -> c_chunk c = true ->
+  Forall (fun op => 0 <= fst op) ops ->
+  refines c (fold_left (model_step c) ops init_state) (fold_left (spec_step c) ops spec_init).
+Proof. exact writer_refines_single_chunked. Qed.
+Print Assumptions C05_never_rewritten_single_chunked_partial.
